@@ -21,6 +21,9 @@
   C18-REQUIRED a required block raises ``RequiredBlockError`` on the direct path (no stack)
               and on the stacked path (top item still required) before anything is rendered;
               an override clears ``required`` only when a more-derived definition exists.
+  C18-SCOPE   ``RenderContext.copy(block_scope=True)`` chains the new context's scope to the caller's
+              live ``self.scope`` (after the new locals and the block namespace): a block nested in
+              a loop or in another block sees what the root's block would see in that place.
 Parity of the sync/async copies is decided under C01.
 Not decided: the rendered output of particular chains (value level).
 """
@@ -169,7 +172,7 @@ def check_extends_cycle(repo: Repo, res: Result, rule: str = "C18-CYCLE") -> Non
 
 def run(repo: Repo) -> Result:
     res = Result(PID)
-    res.rules = ["C18-BLANK", "C18-STOP", "C18-CYCLE", "C18-CHECKS", "C18-SELECT", "C18-REQUIRED"]
+    res.rules = ["C18-BLANK", "C18-STOP", "C18-CYCLE", "C18-CHECKS", "C18-SELECT", "C18-REQUIRED", "C18-SCOPE"]
     res.explanation = "presence and order (dominance) of the inheritance cut-offs and the block-stack selection shape"
     res.assumptions = ["selection semantics over arbitrary chains beyond these shapes are value-level"]
 
@@ -444,6 +447,38 @@ def run(repo: Repo) -> Result:
         res.add("C18-SELECT", bd.qual, "super-one-step", "block.super must render the next definition up (self.parent.block) with parent=self.parent.parent", bd.file, bd.line)
     if "if not self.parent" not in t:
         res.add("C18-SELECT", bd.qual, "no-parent", "block.super without a parent must be undefined", bd.file, bd.line)
+    # ---- C18-SCOPE: the winning definition is rendered *in place* of the root's block ---------------
+    # A block's definition runs on ``context.copy(..., block_scope=True)``.  "In place" means it reads
+    # what the root's block would read at that spot: everything on the caller's live scope chain
+    # (enclosing ``for`` variables, ``forloop``, names pushed by enclosing blocks), shadowed only by
+    # the block's own locals and namespace.  So, under ``block_scope``, the new context's scope is a
+    # chain that contains ``self.scope`` itself — not ``self.locals`` / ``self.globals``, which lack
+    # the pushed namespaces — after the new context's locals and the block namespace.
+    from ..guards import canon as _canon18
+    from ..guards import conditions as _conds18
+
+    cp = repo.own_method("liquid.context.RenderContext", "copy")
+    res.ob(cp.qual, 2)
+    ps18 = [p for p in cp.params() if p != "self"]
+    if "block_scope" not in ps18:
+        raise AnchorMissing("RenderContext.copy no longer has a block_scope parameter")
+    p_ns = ps18[0]
+    n_scope = 0
+    for st18, cs18 in _conds18(cp.node):
+        if isinstance(st18, ast.Assign) and len(st18.targets) == 1 and isinstance(st18.targets[0], ast.Attribute) and st18.targets[0].attr == "scope" and isinstance(st18.targets[0].value, ast.Name):
+            if "block_scope" not in {_canon18(c) for c in cs18}:
+                continue
+            n_scope += 1
+            new_ctx = st18.targets[0].value.id
+            v = st18.value
+            args18 = [text(a) for a in v.args] if isinstance(v, ast.Call) and callee_name(v) == "ReadOnlyChainMap" else []
+            want_before = [f"{new_ctx}.locals", p_ns]
+            if "self.scope" not in args18:
+                res.add("C18-SCOPE", cp.qual, "live-scope-missing", f"{cp.qual}: under block_scope the new context's scope is `{text(v)[:90]}`, which does not chain to `self.scope`: names pushed on the caller's scope (an enclosing for loop's variable and forloop, an enclosing block's namespace) are invisible to the winning block definition, so it does not render as the root's block would in that place", cp.file, st18.lineno)
+            elif any(w not in args18 or args18.index(w) > args18.index("self.scope") for w in want_before):
+                res.add("C18-SCOPE", cp.qual, "shadow-order", f"{cp.qual}: under block_scope the scope chain `{text(v)[:90]}` must list the new context's locals and the block namespace before `self.scope` (they shadow the enclosing names)", cp.file, st18.lineno)
+    if n_scope != 1:
+        raise AnchorMissing(f"RenderContext.copy: expected one `<new context>.scope = ...` under block_scope, found {n_scope}")
     return res
 
 
